@@ -286,7 +286,16 @@ fn exec_inner(c: &Case, out: &mut Outcome) {
             let kinds = culprit.iter().map(|d| kind_name(d)).collect::<Vec<_>>().join("+");
             let class = if let Some(w) = cwhat.strip_prefix("accepted/") {
                 out.bump(&format!("accepted_by_kind.{}", kinds), 1);
-                format!("accepted-damaged-xref:{}", w)
+                // keyed by damage kind AND preset: combinations that are reconstructed faithfully
+                // today (e.g. a junk entry under `tolerant`, where the supplementary header scan
+                // fills the gap) stay checkable
+                let _ = w;
+                if culprit.len() > 1 {
+                    // two simultaneous damages, neither unfaithful alone in this file
+                    format!("accepted-damaged-xref:pair:{}", c.preset)
+                } else {
+                    format!("accepted-damaged-xref:{}:{}", kinds, c.preset)
+                }
             } else {
                 format!("recovery-unfaithful:{}:{}", kinds, cwhat.trim_start_matches("recovered/"))
             };
